@@ -64,7 +64,7 @@ UNSTEER = {
 QUICK_HRAND = 2000
 QUICK_PHASED = 3000
 QUICK_BIG = 400
-QUICK_HUGE = 120
+QUICK_HUGE = 600
 
 SWEEP_STEPS = {
     "C01": ["spawn2", "cancel_all"],
@@ -104,6 +104,8 @@ def units(prop, tier, seed):
         gen = size_family.units(prop, tier, seed, order)
         if tier == "quick":
             yield from gen
+            for i in range(QUICK_HUGE // 2):
+                yield ("huge", (i, subseed(seed, prop, "huge", i)), next(order))
             for i in range(QUICK_SWEEPS // 2):
                 yield ("sweep", subseed(seed, prop, "sweep", i), next(order))
             for i in range(QUICK_RANDOM // 2):
@@ -117,6 +119,8 @@ def units(prop, tier, seed):
                     yield ("rand", subseed(seed, prop, "rand", i), next(order))
                 if i % 200 == 0:
                     yield ("sweep", subseed(seed, prop, "sweep", i), next(order))
+                if i % 50 == 0:
+                    yield ("huge", (i // 50, subseed(seed, prop, "huge", i)), next(order))
         return
     from . import hazards
     for u in hazards.units(prop, tier, seed):
@@ -131,7 +135,7 @@ def units(prop, tier, seed):
             for i in range(QUICK_HRAND):
                 yield ("hrand", (tag, subseed(seed, prop, "hrand", tag, i)), next(order))
         for i in range(QUICK_HUGE):
-            yield ("huge", subseed(seed, prop, "huge", i), next(order))
+            yield ("huge", (i, subseed(seed, prop, "huge", i)), next(order))
         for i in range(QUICK_BIG):
             yield ("big", subseed(seed, prop, "big", i), next(order))
         for i in range(QUICK_PHASED):
@@ -150,7 +154,7 @@ def units(prop, tier, seed):
             for _ in range(2):
                 yield ("big", subseed(seed, prop, "big", i), next(order))
                 i += 1
-            yield ("huge", subseed(seed, prop, "huge", i), next(order))
+            yield ("huge", (i // 68, subseed(seed, prop, "huge", i)), next(order))
             i += 1
             for tag in un:
                 for _ in range(8):
@@ -195,9 +199,10 @@ def exec_unit(prop, unit, agg):
         sim.execute(g.next_step)
         _account(prop, sim, agg, order, "rand")
     elif kind == "huge":
-        g = ScaleGen(arg, prop, True)
+        idx, arg = arg
+        g = ScaleGen(arg, prop, True, index=idx)
         run = {"prop": prop, "seed": arg, "clean": True, "config": g.make_config(), "steps": [], "huge": g.template,
-               "max_handles": 400000, "probe": False}
+               "max_handles": 400000, "idle_cap": 200000}
         sim = Sim(run, {prop})
         sim.execute(g.next_step)
         agg.stats["probe:huge_" + g.template] += 1
